@@ -530,6 +530,28 @@ fn send(
                         );
                         state.max_gso_segments.store(1, Ordering::Relaxed);
                     }
+
+                    // This transmit was built for segmentation offload, which is what failed:
+                    // send its segments one by one instead of dropping all of them.
+                    if let Some(segment_size) = transmit
+                        .segment_size
+                        .filter(|&size| size > 0 && size < transmit.contents.len())
+                    {
+                        for segment in transmit.contents.chunks(segment_size) {
+                            send(
+                                state,
+                                SockRef::from(&*io),
+                                &Transmit {
+                                    destination: transmit.destination,
+                                    ecn: transmit.ecn,
+                                    contents: segment,
+                                    segment_size: None,
+                                    src_ip: transmit.src_ip,
+                                },
+                            )?;
+                        }
+                        return Ok(());
+                    }
                 }
 
                 // Some arguments to `sendmsg` are not supported. Switch to
